@@ -42,11 +42,14 @@ VARIABLES rep, ang, h
 vars == <<rep, ang, h>>
 
 \* lattice of angles the model starts from (the driver adds fractional classes, see Trace_Angles)
-Degs == {0, 1, 59, 60, 89, 90, 179, 180, 359, 360, 719}
+Degs == {0, 1, 59, 60, 89, 90, 179, 180, 359, 360, 540, 650, 719}
 Mins == {0, 1, 29, 30, 59}
 Secs == {0, 1, 30, 59}
 Fracs == {0, 1, 500000000, 999999999}
-Lattice == {[neg |-> s, w |-> d * 3600 + m * 60 + x, f |-> fr] : s \in BOOLEAN, d \in Degs, m \in Mins, x \in Secs, fr \in Fracs}
+\* from 512 degrees on a double no longer resolves 1e-9" in HP notation (540.0059999999999 and 540.006 are one double):
+\* the lattice keeps only the fraction classes 0 and 0.5" there
+Lattice == {a \in {[neg |-> s, w |-> d * 3600 + m * 60 + x, f |-> fr] : s \in BOOLEAN, d \in Degs, m \in Mins, x \in Secs, fr \in Fracs} :
+              a.w < 512 * 3600 \/ a.f \in {0, 500000000}}
 
 Convert(e) == /\ e[1] = rep /\ rep' = e[2]
               /\ ang' = ang                 \* the property: the angle is not changed
